@@ -124,3 +124,36 @@ def ref_regexp_lang(js, n):
 
 def regexp_nodes(js):
     return 1 + sum(regexp_nodes(c) for c in js[1:] if isinstance(c, list))
+
+
+# ------------------------------------------------------------------ Turing machines
+def mk_tm(js, mod=None):
+    if mod is None:
+        import gambatools.tm as mod
+    delta = {(p, a): (q, b, d) for p, a, q, b, d in js['delta']}
+    return mod.TM(set(js['Q']), set(js['Sigma']), set(js['Gamma']), delta, js['q0'], js['q_accept'], js['q_reject'], js['blank'])
+
+
+def ref_tm_run(js, word, k):
+    """-> (verdict, trace) by the definition: at most k steps, stop at the first halting state"""
+    delta = {(p, a): (q, b, d) for p, a, q, b, d in js['delta']}
+    q = js['q0']
+    tape = list(word) or [js['blank']]
+    head = 0
+    trace = [(q, list(tape), head)]
+    halting = (js['q_accept'], js['q_reject'])
+    steps = 0
+    while q not in halting and steps < k:
+        a = tape[head]
+        if (q, a) in delta:
+            q, b, d = delta[(q, a)]
+        else:
+            q, b, d = js['q_reject'], a, 'R'
+        tape[head] = b
+        head = max(head - 1, 0) if d == 'L' else head + 1
+        if head == len(tape):
+            tape.append(js['blank'])
+        steps += 1
+        trace.append((q, list(tape), head))
+    verdict = True if q == js['q_accept'] else False if q == js['q_reject'] else None
+    return verdict, trace
